@@ -280,7 +280,7 @@ decoded-choice digest.",
     }],
     randoms: &[RandomDef {
         name: "histories",
-        cases: |t: Tier| t.pick(500_000, 80_000_000),
+        cases: |t: Tier| t.pick(2_000_000, 80_000_000),
         tape_len: 170,
         exec: None,
     }],
